@@ -171,6 +171,15 @@ Theorem C10_listed_command_nonempty_refuted :
 Proof. exact canvas_empty_command. Qed.
 Print Assumptions C10_listed_command_nonempty_refuted.
 
+(* the canvas theorems above model "append end to the configured steps".  The source as shipped did
+   that through a by-value copy of the vector pointer and lost the whole list whenever the append made the
+   vector grow (16 configured steps: double free; 32: nothing listed); /repo 8c850c1 reserves the room through
+   the real vector first.  The translator tells which body the source has; the model is faithful only for the
+   repaired one, so this pin must hold for the canvas theorems to speak about the code. *)
+Theorem C10_canvas_end_appended_in_place : canvas_end_reserved = true.
+Proof. exact eq_refl. Qed.
+Print Assumptions C10_canvas_end_appended_in_place.
+
 (* ------------------------------------------------------------------ non-vacuity *)
 Example C10_nonvacuous :
   list_cmd sched_wit_env TRg sched_wit_text None =
